@@ -304,11 +304,11 @@ int main(void) {
 		for (size_t i = 0; i < nitems(algs); i++) if (!strcmp(algs[i].name, an)) a = &algs[i];
 		if (!a) { printf("{\"error\":\"alg\"}\n"); free(copy); continue; }
 		snprintf(vh_case_tag, sizeof(vh_case_tag), "%.200s", line);
-		alarm(60);
+		vh_watchdog(3, 30); /* a case costs milliseconds of CPU time (messages <= 8 KiB): 3 s of CPU time (30 s of wall clock) without an answer = the code under test does not terminate */
 		if (!strcmp(op, "resume")) {
 			if (nt < 8) { printf("{\"error\":\"args\"}\n"); free(copy); continue; }
 			do_resume(a, (size_t)atoi(tok[2]) & 63, tok[3], tok[4], tok[5], tok[6], tok[7]);
-			alarm(0);
+			vh_watchdog(0, 0);
 			free(copy);
 			continue;
 		}
@@ -383,7 +383,7 @@ int main(void) {
 		printf(",\"hexnul\":%d,", hex[a->hsize * 2] == 0);
 		jhex("hex", (const uint8_t*)hex, a->hsize * 2);
 		printf(",\"consumed\":%zu}\n", off);
-		alarm(0);
+		vh_watchdog(0, 0);
 		vh_buf_free(dg); vh_buf_free(one); vh_buf_free((uint8_t*)hex);
 		free(cbase); free(mbase); free(msg0);
 		if (is_hmac) { free(kbase); free(key); }
